@@ -1499,6 +1499,9 @@ pub fn c15(ctx: &Ctx, rep: &mut Report) {
         }
         o
     });
+    // the connection ends (keepalive expiry) while the endpoint's own bind queue is full, its receive loop is parked on a further request
+    // and yet another one is unread: its OWN pending bind request must still resolve (false or Closed) - shared with C08
+    ctx.enumerate(rep, "bind-queue-full-at-connection-end", super::teardown::BIND_QUEUE_FULL_CASES, 4, super::teardown::bind_queue_full_case, super::teardown::run_bind_queue_full);
     // a harness-driven peer: other well-formed frames on the id of a pending bind request (a late credit frame of an earlier stream
     // with that id, a stray Push or Connect) arrive before the peer's actual answer; only the answer - Finish = accepted, Reset =
     // refused - decides the request, and other requests are untouched
